@@ -9,6 +9,8 @@ import (
 type commitable[T any] struct {
 	comittedValue T
 	stagedValue   typeutils.Optional[T]
+	// The value that was committed before the last Commit, so that a commit can be rolled back.
+	previousValue typeutils.Optional[T]
 }
 
 func NewCommitable[T any](value T) commitable[T] {
@@ -29,9 +31,23 @@ func (c *commitable[T]) Stage(value T) {
 
 func (c *commitable[T]) Commit() {
 	if val, ok := c.stagedValue.Get(); ok {
+		c.previousValue = typeutils.Some(c.comittedValue)
 		c.comittedValue = val
 		c.stagedValue = typeutils.None[T]()
 	}
+}
+
+// Undoes the last Commit, restoring the value that was committed before it.
+func (c *commitable[T]) Rollback() {
+	if val, ok := c.previousValue.Get(); ok {
+		c.comittedValue = val
+		c.previousValue = typeutils.None[T]()
+	}
+}
+
+// Forgets the value remembered for Rollback: the last Commit is final.
+func (c *commitable[T]) Finalize() {
+	c.previousValue = typeutils.None[T]()
 }
 
 func (c *commitable[T]) Uncommit() {
